@@ -658,7 +658,9 @@ func (r *Run) judgeRedeem(st Step, code *Cred, cs *ClientSpec, res *Resp, sentRe
 	}
 	// refused although no statement gives a reason
 	if exp == Must && pkceSpecified && r.mustSucceedOK(g) {
-		if code.Extra["retry_must"] != "" {
+		if g.ViaPAR && g.Params["par_conflicts"] != "" {
+			r.violate("C17", "pushed-value-overridden", "redeem", "%s: refused (%s) - the code was issued from a pushed request that was used with conflicting query parameters [%s]; the authorization must have proceeded with the pushed values", desc, res.ErrName, g.Params["par_conflicts"])
+		} else if code.Extra["retry_must"] != "" {
 			r.violate("C18", "retry-after-clean-failure-refused", "authorization_code", "%s: refused (%s) although the earlier storage failure left every record as it was: the credential must still be usable by its legitimate holder", desc, res.ErrName)
 		} else if g.FailedPKCE > 0 {
 			// an earlier attempt failed PKCE: whether the correct verifier still works afterwards is not pinned down (C03 is an only-if statement)
@@ -1188,6 +1190,10 @@ func (r *Run) opIntrospect(st Step) {
 		return
 	}
 	if c.Kind == "rt" && r.W.K.DisableRTValidation {
+		r.probe("introspect-rt-while-disabled:" + st.V)
+		if active {
+			r.violate("C09", "refresh-token-active-although-introspection-disabled", st.V, "%s: a refresh token is reported active although refresh-token validation is disabled: %s", desc, truncate(res.Body, 200))
+		}
 		return
 	}
 	exp, why := r.L.Expect(c, r.now())
